@@ -108,6 +108,7 @@ func markerOwnership(r *Run, rule string) {
 
 func checkC12(r *Run) {
 	P := r.P
+	moreC12(r)
 	r.NotDecided("content equality after reopen (IAVL and the DB are libraries)")
 	r.NotDecided("which versions a pruning policy retains as a function of the whole history (decided: the delete argument and its guards in one Commit)")
 
@@ -288,6 +289,7 @@ func queryVersionGuard(r *Run, rule string) {
 }
 
 func checkC13(r *Run) {
+	moreC13(r)
 	r.NotDecided("crash behaviour itself (depends on IAVL's and the DB's write atomicity); decided: ordering conditions each of which is necessary")
 	r.Rule("C13-R1", "the latest-version marker and the commit info are written in one batch, flushed after every substore commit, and written nowhere else (= C12-R1/R3)", 12)
 	commitShape(r, "C13-R1")
@@ -324,6 +326,7 @@ func checkC13(r *Run) {
 
 func checkC14(r *Run) {
 	P := r.P
+	moreC14(r)
 	r.NotDecided("that IAVL proofs verify (library); that the tree content at a version equals what was committed (C12)")
 	r.NotDecided("the /subspace query path: it iterates the live tree and ignores the height (outside the statement's key queries; recorded as an observation)")
 	h := "store/iavl.getHeight(param:st.tree, param:req)"
